@@ -1,7 +1,7 @@
 """Generators for glob / plain / dewey / alternate patterns and package names."""
 import vgen
 
-ALPHA = "abcxyzABX019-._+"
+ALPHA = "abcxyzABX019-._+^"
 
 
 def lit(rng, n=None):
@@ -31,13 +31,17 @@ def glob_tokens(rng, maxtok=6):
                     items.append(a + "-" + b)
                     chars.append((a, b))
                 else:
-                    c = rng.choice("abcxyz019.-!")
+                    c = rng.choice("abcxyz019.-!^")
                     items.append(c)
                     chars.append((c, c))
             body = "".join(items)
             if rng.random() < 0.08:
                 body = "]" + body
                 chars.append(("]", "]"))
+            elif rng.random() < 0.1:
+                # '^' right after '[' is an ordinary member in this glob dialect (only '!' negates)
+                body = "^" + body
+                chars.append(("^", "^"))
             if body.startswith("!") and not neg:
                 body = "a" + body
                 chars.append(("a", "a"))
